@@ -300,6 +300,9 @@ M("c09.siv.subkey.view.revert", "C09", "lib/Crypto/Cipher/_mode_siv.py", "      
 HPKEPY = "lib/Crypto/Protocol/HPKE.py"
 M("c15.hist.nonce.byteorder", "C15", HPKEPY, "self._sequence.to_bytes(self._Nn, 'big')", "self._sequence.to_bytes(self._Nn, 'little')", "N|hpke")
 M("c15.hist.aad.dropped", "C15", HPKEPY, "        if auth_data:\n            cipher.update(auth_data)\n\n        try:", "        try:", "N|hpke.histories")
+M("c03.stack.kmac.rightencode", "C03", "lib/Crypto/Hash/KMAC128.py", "self._cshake.update(_right_encode(self.digest_size * 8))", "self._cshake.update(_right_encode(self.digest_size))", "K-pw|sponge.stack.KMAC")
+M("c03.stack.cshake.padding", "C03", "lib/Crypto/Hash/cSHAKE128.py", "            self._padding = 0x04", "            self._padding = 0x1F", "K-pw|sponge.stack.cSHAKE")
+M("c03.stack.sha3.padding", "C03", "lib/Crypto/Hash/SHA3_384.py", "        self._padding = 0x06", "        self._padding = 0x1F", "K-pw|sponge.stack.SHA3_384")
 RSAPY = "lib/Crypto/PublicKey/RSA.py"
 M("c07.toy.rsa.crt.h", "C07", RSAPY, "h = ((m2 - m1) * self._u) % self._q", "h = ((m1 - m2) * self._u) % self._q", "K-pw|rsa.toy.decrypt")
 M("c07.toy.rsa.crt.abs", "C07", RSAPY, "h = ((m2 - m1) * self._u) % self._q", "h = (abs(m2 - m1) * self._u) % self._q", "K-pw|rsa.toy.decrypt")
